@@ -914,6 +914,32 @@ theorem bridge_call_token_holder_is_caller :
       cl.steps.all (fun s => s.callee != "EvmToBaseCoin" || (s.args.getLast? == some "caller" && s.err == "checked"))) = true ∧
     (FxVerif.Gen.C10.closures.filter (fun cl => cl.abiName == "bridgeCall")).length = 1 := by decide
 
+/-- HISTORIES of the token leg: over ANY list of such calls by ANY callers with ANY amounts and pair kinds, an account that
+is never the direct caller (and is not one of the two system accounts) keeps its ERC-20 balance, its coins and every
+ERC-20 allowance it granted — however large the allowance it once gave to the precompile -/
+theorem tok_history_noncaller_safe (pre mod tokC : Nat) (ops : List TokOp) (w : TW) (a : Nat)
+    (ha : ∀ o ∈ ops, o.caller ≠ a) (hm : a ≠ mod) (ht : a ≠ tokC) :
+    (runTokH pre mod tokC ops w).tok a = w.tok a ∧ (runTokH pre mod tokC ops w).coin a = w.coin a ∧
+    ∀ y, (runTokH pre mod tokC ops w).appr a y = w.appr a y := by
+  induction ops generalizing w with
+  | nil => exact ⟨rfl, rfl, fun _ => rfl⟩
+  | cons o rest ih =>
+    have hrest : ∀ o' ∈ rest, o'.caller ≠ a := fun o' ho' => ha o' (List.mem_cons_of_mem _ ho')
+    have ho : o.caller ≠ a := ha o (List.mem_cons_self ..)
+    have step : (applyTok pre mod tokC w o).tok a = w.tok a ∧ (applyTok pre mod tokC w o).coin a = w.coin a ∧
+        ∀ y, (applyTok pre mod tokC w o).appr a y = w.appr a y := by
+      unfold applyTok
+      cases h : runOps o.pk ⟨o.caller, pre, mod, tokC⟩ o.amount erc20Leg w with
+      | none => exact ⟨rfl, rfl, fun _ => rfl⟩
+      | some r =>
+        cases r with
+        | none => exact ⟨rfl, rfl, fun _ => rfl⟩
+        | some w' => exact erc20_leg_only_sender_pays o.pk _ o.amount w w' h a ⟨fun e => ho e.symm, hm, ht⟩
+    have := ih (applyTok pre mod tokC w o) hrest
+    simp only [runTokH, List.foldl_cons] at this ⊢
+    exact ⟨this.1.trans step.1, this.2.1.trans step.2.1, fun y => (this.2.2 y).trans (step.2.2 y)⟩
+example : ∀ o ∈ [(⟨⟨false, false, true⟩, 1, 50⟩ : TokOp), ⟨⟨true, true, false⟩, 3, 7⟩], o.caller ≠ 2 := by simp
+
 -- non-vacuity: a contract-owned token, sender 1 holding 100 with 60 approved to the precompile 7, moving 50
 def tokW0 : TW := ⟨fun x => if x = 1 then 100 else 0, fun x y => if x = 1 ∧ y = 7 then 60 else 0, fun _ => 0⟩
 example : (⟨1, 7, 8, 9⟩ : Roles).distinct := by simp [Roles.distinct]
